@@ -570,6 +570,10 @@ class RandMaxVar(MaxVar):
             return pt_eval.ravel()
 
         def _evaluate_logpdf(theta):
+            # The acquisition density is restricted to the bounds of the surrogate model
+            for idx_param, bound in enumerate(gp.bounds):
+                if not bound[0] <= theta[idx_param] <= bound[1]:
+                    return -np.inf
             val_pdf = self.evaluate(theta).item()
             if val_pdf == 0:
                 return -np.inf
